@@ -53,6 +53,18 @@ func (self *Analyzer) functionSignature(node pAst.FunctionDefinition) {
 		})
 	}
 
+	// a function shares its name space with the imports and builtins of the module's root scope
+	if prev, exists := self.currentModule.Scopes[0].Values[node.Ident.Ident()]; exists {
+		self.error(
+			fmt.Sprintf("Name '%s' already exists in current scope", node.Ident.Ident()),
+			[]string{"Consider changing the name of this function"},
+			node.Ident.Span(),
+		)
+		if prev.Origin == ImportedVariableOriginKind {
+			self.hint(fmt.Sprintf("'%s' imported here", node.Ident.Ident()), nil, prev.Span)
+		}
+	}
+
 	// add function to current module
 	if prev, exists := self.currentModule.getFunc(node.Ident.Ident()); exists {
 		// check if the identifier conflicts with another function
